@@ -38,7 +38,7 @@ PROPS = {
               "call sequence); distinct by descriptor hash; non-trivial when N >= 2 (maps differ from identity "
               "for some p in the block)"
              " Later additions have their own keys in by_case_class (DESIGN.md 5.1): call sequences and object life cycles, multi-threaded cases (also run under ThreadSanitizer), sweeps over every value of a size parameter, placement / alignment / data-structure modes drawn from the case hash."),
-        require={"all": ["calls_repeated_under_allocation_failure", "small_stack_calls", "concurrent_lifecycle_uses", "rot_p_checked", "auto_p_checked", "wrapper_calls", "wrapper_dispatch:generic", "inplace_unequal_size_calls", "cross_dimension_sequences", "concurrent_map_calls", "auto_branch:cycles",
+        require={"all": ["calls_with_write_protected_inputs", "calls_repeated_under_allocation_failure", "small_stack_calls", "concurrent_lifecycle_uses", "rot_p_checked", "auto_p_checked", "wrapper_calls", "wrapper_dispatch:generic", "inplace_unequal_size_calls", "cross_dimension_sequences", "concurrent_map_calls", "auto_branch:cycles",
                          "auto_branch:mirror", "auto_branch:negate", "auto_branch:negamirror",
                          "auto_branch:identity"]},
         assumptions=["index-map oracle uses 128-bit Euclidean remainders; probe a_i=i+1 is injective so one probe "
@@ -55,7 +55,7 @@ PROPS = {
               "in-place flag, range triple, dispatch) or one exhaustive window / primitive batch; distinct by descriptor "
               "hash; non-trivial when at least one inter-limb carry is non-zero (digit differs from the isolated digit)"
              " Later additions have their own keys in by_case_class (DESIGN.md 5.1): call sequences and object life cycles, multi-threaded cases (also run under ThreadSanitizer), sweeps over every value of a size parameter, placement / alignment / data-structure modes drawn from the case hash."),
-        require={"all": ["small_stack_calls", "concurrent_entry_calls", "coefficients_checked", "primitive_values_checked", "exhaustive_limb_combinations",
+        require={"all": ["calls_with_write_protected_inputs", "small_stack_calls", "concurrent_entry_calls", "coefficients_checked", "primitive_values_checked", "exhaustive_limb_combinations",
                          "cases_with_interlimb_carry"]},
         assumptions=["digit oracle: 1024-bit two's-complement integers, centred remainders from the least significant end",
                      "carry_in of the primitive restricted to |c| < 2^(63-k) (digit + carry cannot overflow int64)", ASAN_NOTE],
@@ -67,7 +67,7 @@ PROPS = {
               "choices, extra-limb flag); distinct by descriptor hash; non-trivial when res_size >= 1 and at least one "
               "source limb is used"
              " Later additions have their own keys in by_case_class (DESIGN.md 5.1): call sequences and object life cycles, multi-threaded cases (also run under ThreadSanitizer), sweeps over every value of a size parameter, placement / alignment / data-structure modes drawn from the case hash."),
-        require={"all": ["small_stack_calls", "limbs_compared", "dispatch:native", "dispatch:generic", "dispatch:kernel-avx", "dispatch:kernel-ref", "aliased_calls", "interleaved_view_calls", "concurrent_vector_calls", "same_input_calls", "long_history_calls", "one_limb_arbitrary_stride_calls", "same_buffers_other_data_calls"]},
+        require={"all": ["calls_with_write_protected_inputs", "small_stack_calls", "limbs_compared", "dispatch:native", "dispatch:generic", "dispatch:kernel-avx", "dispatch:kernel-ref", "aliased_calls", "interleaved_view_calls", "concurrent_vector_calls", "same_input_calls", "long_history_calls", "one_limb_arbitrary_stride_calls", "same_buffers_other_data_calls"]},
         assumptions=["per-limb definition evaluated by the harness (missing limb = 0)",
                      "stride padding and guard bands are ASan-poisoned and carry canaries; inputs are byte-snapshotted", ASAN_NOTE],
     ),
@@ -78,7 +78,7 @@ PROPS = {
               "...+idft_tmp_a) for (N, operand family, dispatch, res/a limb counts, stride, repetition); distinct by "
               "descriptor hash; non-trivial when both operands are non-zero, N >= 4 and at least one row is produced"
              " Later additions have their own keys in by_case_class (DESIGN.md 5.1): call sequences and object life cycles, multi-threaded cases (also run under ThreadSanitizer), sweeps over every value of a size parameter, placement / alignment / data-structure modes drawn from the case hash."),
-        require={"all": ["small_stack_calls", "concurrent_lifecycle_uses", "concurrent_entry_calls", "products_checked", "exact_regime_products", "budget_regime_products", "frontier_products", "lifecycle_products", "lifecycle_uses", "same_buffers_other_data_calls", "prepare_arguments_overwritten_before_use", "idft_variant:idft(res==a_dft),short-dft",
+        require={"all": ["calls_with_write_protected_inputs", "small_stack_calls", "concurrent_lifecycle_uses", "concurrent_entry_calls", "products_checked", "exact_regime_products", "budget_regime_products", "frontier_products", "lifecycle_products", "lifecycle_uses", "same_buffers_other_data_calls", "prepare_arguments_overwritten_before_use", "idft_variant:idft(res==a_dft),short-dft",
                          "zero_rows_checked", "oracle_selfcheck_ok"]},
         assumptions=["exact oracle: schoolbook with 128-bit accumulators, or an oracle-side NTT modulo a 62-bit prime "
                      "(cross-checked against schoolbook at start-up)",
@@ -91,7 +91,7 @@ PROPS = {
               "prepare + both apply entry points + inverse DFT; distinct by descriptor hash; non-trivial when "
               "min(nrows,a_size) >= 1 and min(ncols,res_size) >= 1 (zero-size classes are counted separately)"
              " Later additions have their own keys in by_case_class (DESIGN.md 5.1): call sequences and object life cycles, multi-threaded cases (also run under ThreadSanitizer), sweeps over every value of a size parameter, placement / alignment / data-structure modes drawn from the case hash."),
-        require={"all": ["small_stack_calls", "shapes_checked", "columns_checked", "zero_columns_checked", "exact_regime_columns", "zero_polynomial_matrix_entries", "concurrent_prepare_apply_calls", "scaled_input_limbs_cases", "same_buffers_other_data_calls", "prepare_arguments_overwritten_before_use",
+        require={"all": ["calls_with_write_protected_inputs", "small_stack_calls", "shapes_checked", "columns_checked", "zero_columns_checked", "exact_regime_columns", "zero_polynomial_matrix_entries", "concurrent_prepare_apply_calls", "scaled_input_limbs_cases", "same_buffers_other_data_calls", "prepare_arguments_overwritten_before_use",
                          "layout:column-major(N<8)", "layout:blocked", "layout:blocked(one block)"]},
         assumptions=["exact oracle per (row, column) product summed in 128-bit integers; budget = sum of the C01 "
                      "budgets of the rows + 1/2", "scratch buffers are exactly *_tmp_bytes and NaN-prefilled", ASAN_NOTE],
@@ -106,7 +106,7 @@ PROPS = {
               "conversions / block copies (nn, repetition); distinct by descriptor hash; non-trivial when ell >= 1 or "
               "the conversion input is non-empty"
              " Later additions have their own keys in by_case_class (DESIGN.md 5.1): call sequences and object life cycles, multi-threaded cases (also run under ThreadSanitizer), sweeps over every value of a size parameter, placement / alignment / data-structure modes drawn from the case hash."),
-        require={"all": ["power_of_two_products", "small_stack_calls", "concurrent_lifecycle_uses", "product_lanes_checked", "conversion_values_checked", "blocks_checked", "concurrent_kernel_calls", "exhaustive_ell_values", "lifecycle_uses", "lifecycle_mass_objects_alive", "same_buffers_other_data_calls"]},
+        require={"all": ["calls_with_write_protected_inputs", "power_of_two_products", "small_stack_calls", "concurrent_lifecycle_uses", "product_lanes_checked", "conversion_values_checked", "blocks_checked", "concurrent_kernel_calls", "exhaustive_ell_values", "lifecycle_uses", "lifecycle_mass_objects_alive", "same_buffers_other_data_calls"]},
         assumptions=["oracle: operands reduced modulo each prime, products accumulated with 128-bit arithmetic; CRT "
                      "constants recomputed by the oracle", ASAN_NOTE],
     ),
@@ -117,7 +117,7 @@ PROPS = {
               "an evaluation-map check, or one module-level dft/idft call (N, a/dft/res limb counts, stride, variant); "
               "distinct by descriptor hash; non-trivial when n >= 2 and the input is not constant zero"
              " Later additions have their own keys in by_case_class (DESIGN.md 5.1): call sequences and object life cycles, multi-threaded cases (also run under ThreadSanitizer), sweeps over every value of a size parameter, placement / alignment / data-structure modes drawn from the case hash."),
-        require={"all": ["concurrent_lifecycle_uses", "roundtrips_checked", "linearity_checked", "convolutions_checked", "horner_evaluations", "spectrum_limbs_checked", "concurrently_built_tables", "lifecycle_uses", "concurrent_entry_calls", "same_buffers_other_data_calls",
+        require={"all": ["limbs_checked_in_vectors_over_4GiB", "concurrent_lifecycle_uses", "roundtrips_checked", "linearity_checked", "convolutions_checked", "horner_evaluations", "spectrum_limbs_checked", "concurrently_built_tables", "lifecycle_uses", "concurrent_entry_calls", "same_buffers_other_data_calls",
                          "module_roundtrip_limbs"]},
         assumptions=["oracle works on the residues of the 64-bit lanes modulo each prime; convolution by schoolbook "
                      "(n<=256) or an oracle-side NTT with its own root search",
@@ -171,7 +171,7 @@ PROPS = {
               "quarter points, integers, tiny, random); distinct by descriptor hash; every case is non-trivial (each "
               "batch contains non-integers and boundary values)"
              " Later additions have their own keys in by_case_class (DESIGN.md 5.1): call sequences and object life cycles, multi-threaded cases (also run under ThreadSanitizer), sweeps over every value of a size parameter, placement / alignment / data-structure modes drawn from the case hash."),
-        require={"all": ["small_stack_calls", "values_checked", "rounding_exercised", "conv:reim_from_znx64", "conv:reim_to_znx64",
+        require={"all": ["input_class:1", "input_class:9", "small_stack_calls", "values_checked", "rounding_exercised", "conv:reim_from_znx64", "conv:reim_to_znx64",
                          "conv:reim_to_tnx", "conv:cplx_from_znx32", "conv:cplx_from_tnx32", "conv:cplx_to_tnx32",
                          "exhaustive_int32:cplx_from_znx32_ref", "exhaustive_int32:cplx_from_znx32_avx2_fma", "exhaustive_int32:cplx_from_tnx32_ref", "exhaustive_int32:cplx_from_tnx32_avx2_fma", "page_offset_sweep_calls", "concurrent_simple_conversion_calls", "same_buffers_other_data_calls"]},
         assumptions=["exact comparison in __float128: r*d, x and 2^32 scalings fit in 113 bits",
@@ -186,7 +186,7 @@ PROPS = {
               "family); pointwise mul/addmul (layout, variant, m, family, aliasing); convolution (sizea, sizeb) over all "
               "windows; distinct by descriptor hash; non-trivial when at least one row / term / operand is non-empty"
              " Later additions have their own keys in by_case_class (DESIGN.md 5.1): call sequences and object life cycles, multi-threaded cases (also run under ThreadSanitizer), sweeps over every value of a size parameter, placement / alignment / data-structure modes drawn from the case hash."),
-        require={"all": ["small_stack_calls", "concurrent_entry_calls", "blocks_checked", "bitwise_block_copies_checked", "same_buffers_other_data_calls", "layout_roundtrips", "dot_products", "pointwise_vectors",
+        require={"all": ["rows_checked_in_vectors_over_4GiB", "calls_with_write_protected_inputs", "small_stack_calls", "concurrent_entry_calls", "blocks_checked", "bitwise_block_copies_checked", "same_buffers_other_data_calls", "layout_roundtrips", "dot_products", "pointwise_vectors",
                          "convolution_windows", "fftvec:cplx:avx512", "fftvec:cplx:sse", "fftvec:reim4:fma", "simple_api_calls"]},
         assumptions=["complex-arithmetic oracle in long double with the rounding budgets of DESIGN Appendix A",
                      "the inner order of the four numbers of a reim4 block produced by reim4_from_cplx is not "
@@ -199,7 +199,7 @@ PROPS = {
               "limb counts, strides, p class, repetition): the out-of-place call on a copy and the aliased call; "
               "distinct by descriptor hash; non-trivial when the aliased operand and the output have >= 1 limb"
              " Later additions have their own keys in by_case_class (DESIGN.md 5.1): call sequences and object life cycles, multi-threaded cases (also run under ThreadSanitizer), sweeps over every value of a size parameter, placement / alignment / data-structure modes drawn from the case hash."),
-        require={"all": ["calls_repeated_under_allocation_failure", "small_stack_calls", "aliased_pairs", "alias:vec_znx_idft(res==a_dft)", "alias:vec_znx_add(res==b)",
+        require={"all": ["calls_with_write_protected_inputs", "calls_repeated_under_allocation_failure", "small_stack_calls", "aliased_pairs", "alias:vec_znx_idft(res==a_dft)", "alias:vec_znx_add(res==b)",
                          "alias:vec_znx_big_sub_small_a(res==b)", "alias:reim_fftvec(r==a==b)", "alias:cplx_fftvec(r==b)", "concurrent_aliased_calls", "long_history_calls"]},
         assumptions=["the aliased buffer is the very same pointer with the same stride; it holds live (stale) data beyond "
                      "the aliased operand's limb count", "bitwise equality with the out-of-place call (same kernel runs)", ASAN_NOTE],
@@ -298,7 +298,7 @@ PROPS = {
               "a DFT-space product and a coefficient-space operation on an inverse-DFT result (FFT64) or a dft/idft round "
               "trip (NTT120)"
              " Later additions have their own keys in by_case_class (DESIGN.md 5.1): call sequences and object life cycles, multi-threaded cases (also run under ThreadSanitizer), sweeps over every value of a size parameter, placement / alignment / data-structure modes drawn from the case hash."),
-        require={"all": ["small_stack_calls", "concurrent_lifecycle_uses", "concurrent_entry_calls", "programs", "operations_executed", "lifecycle_uses", "op:vmp_apply_dft_to_dft", "op:svp_apply_dft",
+        require={"all": ["calls_with_write_protected_inputs", "small_stack_calls", "concurrent_lifecycle_uses", "concurrent_entry_calls", "programs", "operations_executed", "lifecycle_uses", "op:vmp_apply_dft_to_dft", "op:svp_apply_dft",
                          "op:vec_znx_idft_tmp_a", "op:vec_znx_big_range_normalize_base2k",
                          "edge:svp_apply_dft->vmp_apply_dft_to_dft", "edge:vmp_apply_dft_to_dft->vec_znx_idft",
                          "edge:vec_znx_idft->vec_znx_big_normalize_base2k"]},
